@@ -271,6 +271,8 @@ from . import shared
 RULES = RULES + shared.bundle('C04', [], ['resolution', 'resolution2d'])
 from . import folds as _folds
 RULES = RULES + [_folds.fold_rule('C04')]
+from .. import refs as _refs
+RULES = RULES + [_refs.ref_rule('C04')]
 
 
 def run(tier="quick", replay=None):
